@@ -8,7 +8,7 @@
 // the TiKV region simulator (verif/engine/regionsim) and the oracle below,
 // written from the property statement, is evaluated:
 //
-//	<who>/peer-count-changed, <who>/role-count-changed   number of peers per role differs after the operator
+//	<who>/replica-lost, <who>/replica-added, <who>/role-count-changed   number of peers (per role) differs after the operator
 //	<who>/two-peers-on-store, <who>/peer-to-store-holding-region
 //	<who>/peer-to-store:<state>                          a peer is added on a store that is not up
 //	<who>/leader-to-learner, <who>/leader-to-absent
@@ -461,7 +461,11 @@ func (rn *runner) execute(e envSpec, who string, op *operator.Operator, r *regio
 	v0, l0, _ := roleCounts(before)
 	v1, l1, _ := roleCounts(r)
 	if v0+l0 != v1+l1 {
-		return bad("peer-count-changed", "the region had %d peers (%d voters, %d learners), after the operator it has %d (%d voters, %d learners): %s", v0+l0, v0, l0, v1+l1, v1, l1, r)
+		key := "replica-lost"
+		if v1+l1 > v0+l0 {
+			key = "replica-added"
+		}
+		return bad(key, "the region had %d peers (%d voters, %d learners), after the operator it has %d (%d voters, %d learners): %s", v0+l0, v0, l0, v1+l1, v1, l1, r)
 	}
 	if v0 != v1 || l0 != l1 {
 		return bad("role-count-changed", "the region had %d voters and %d learners, after the operator it has %d voters and %d learners: %s", v0, l0, v1, l1, r)
